@@ -119,6 +119,21 @@ def families():
             t.append("ldi r16, " + ch + "+(" * n + "1" + ")" * n + "\n")
             t.append(".db " + ch + ", " + "-(1+" * n + "1" + ")" * n + "\n")
         t.append(".db \"" + "(" * n + "\", " + "(" * n + "1" + ")" * n + "\n")
+    # prefix operators spread over names, parentheses and character constants; long subtractions of character constants (legal)
+    for n in (4, 16, 64, 200):
+        for k in (3, 20, 62):
+            t.append(" ldi r16, " + ("~" * k + "low(") * n + "1" + ")" * n + "\n")
+            t.append(" .dw " + ("-" * k + "(") * n + "1" + ")" * n + ", " + ("!" * k + "hwrd(") * n + "1" + ")" * n + "\n")
+            t.append(".if 0\n.if " + ("~" * k + "low(") * n + "1" + ")" * n + "\n.endif\n.endif\nnop\n")
+        t.append(" ldi r16, (" + "-".join(["'a'"] * n) + ") & 1\n")
+    # long messages multiplied by nested macros
+    for width, levels in ((30000, 4), (3000, 5), (60000, 3)):
+        src = ".device ATtiny13\n.macro a\n.message \"" + "x" * width + "\"\n.endm\n"
+        prev = "a"
+        for nm in "bcdef"[:levels]:
+            src += ".macro %s\n" % nm + (prev + "\n") * 10 + ".endm\n"
+            prev = nm
+        t.append(src + prev + "\n")
     # literals no 64-bit value can hold, in every radix, also where the line is not assembled
     for lit_ in ("0x8000000000000000", "0xFFFFFFFFFFFFFFFFF", "$ffffffffffffffff", "9223372036854775808", "99999999999999999999999999", "0b1" + "0" * 63, "0b" + "1" * 80,
                  "01000000000000000000000", "07777777777777777777777", "0777777777777777777777777777", "0" * 40 + "7" * 30):
